@@ -104,14 +104,15 @@ func (n *GSNode) Panics() []string {
 
 // World is one execution: fabric, nodes, monitors.
 type World struct {
-	Log    *mon.Log
-	Fab    *fab.Fabric
-	Ctx    context.Context
-	cancel context.CancelFunc
-	Nodes  []*GSNode
-	Q      *mon.Quiescer
-	reqs   []*Req
-	mu     sync.Mutex
+	Log     *mon.Log
+	Fab     *fab.Fabric
+	Ctx     context.Context
+	cancel  context.CancelFunc
+	Nodes   []*GSNode
+	Q       *mon.Quiescer
+	reqs    []*Req
+	mu      sync.Mutex
+	retired map[graphsync.RequestID]int64
 }
 
 // NewWorld creates an empty world.
@@ -123,6 +124,22 @@ func NewWorld() *World {
 	w.Q = &mon.Quiescer{BusyBase: verifhook.BusyCount()}
 	w.Q.Preds = append(w.Q.Preds, w.Fab.Idle)
 	w.Q.Barrier = w.barrier
+	// the request manager reports when it retires a request (earlier than the consumers see the channels close)
+	mon.ExtraSink.Store(func(point string, kv ...any) {
+		if point == "reqmgr.terminated" && len(kv) > 0 {
+			if id, ok := kv[0].(graphsync.RequestID); ok {
+				now := mon.Tick()
+				w.mu.Lock()
+				if w.retired == nil {
+					w.retired = map[graphsync.RequestID]int64{}
+				}
+				if _, dup := w.retired[id]; !dup {
+					w.retired[id] = now
+				}
+				w.mu.Unlock()
+			}
+		}
+	})
 	w.Q.Stalled = w.Fab.StalledSenders
 	return w
 }
@@ -276,6 +293,13 @@ func (w *World) Call(f func()) bool {
 	case <-time.After(20 * time.Second):
 		return false
 	}
+}
+
+// RetiredAt returns the logical time at which a requestor's request manager retired request id (0 = not yet).
+func (w *World) RetiredAt(id graphsync.RequestID) int64 {
+	w.mu.Lock()
+	defer w.mu.Unlock()
+	return w.retired[id]
 }
 
 // Quiesce waits for (weak) logical quiescence; false = watchdog (inconclusive).
